@@ -166,6 +166,18 @@ def run(tier, seed):
 
     n = 60 if quick else 1200
     jobs, texts = [], {}
+    # the recorded findings first, so that each is reproduced (and reported as KNOWN-FINDING) by every run
+    WITNESSES = [
+        # a cogenerated electricity within a few units of the printed precision governs the cogeneration factor
+        ("w0", "1, CONSUMO, COGEN, BIOCARBURANTE, 478.1875\n1, PRODUCCION, EL_COGEN, 0.015625\n2, CONSUMO, ILU, ELECTRICIDAD, 0.0126953125\n3, CONSUMO, CAL, GASNATURAL, 100.0\n", "PENINSULA"),
+        # rounding of an ambient-heat use and of its production leaves a cent uncovered: completed again when read back
+        ("w1", "1, CONSUMO, ACS, EAMBIENTE, 10.015625, 20.265625\n1, PRODUCCION, EAMBIENTE, 10.015625, 20.234375\n1, CONSUMO, ACS, ELECTRICIDAD, 5.0, 5.0\n", "PENINSULA"),
+    ]
+    for wid, wtxt, wloc in WITNESSES:
+        job = {"id": wid, "comps": {"text": wtxt}, "factors": {"loc": wloc}, "user": {}, "strip": False, "evals": [["0", "1", False]],
+               "want": ["comps_display", "comps_roundtrip", "factors_display", "factors_roundtrip"]}
+        jobs.append(job)
+        texts[wid] = wtxt
     for i in range(n):
         txt, b = tf.render_case_text(rng, plain_comments=(i % 4 == 3))
         # legacy lines without id, now and then
@@ -208,6 +220,7 @@ def run(tier, seed):
         c, f = r["comps"]["ok"], r["factors"]["ok"]
         replay = {"components": texts[cid], "job": {k: v for k, v in job.items() if k != "want"}}
         what = None
+        from_results = False      # only a difference between the two evaluations can be blamed on the printed precision
         rt = r.get("comps_roundtrip", {})
         if "ok" not in rt:
             what = "the components written do not read back: %s" % json.dumps(rt, ensure_ascii=False)[:200]
@@ -230,14 +243,16 @@ def run(tier, seed):
                 k1 = ev1.get("err") or ("ok" if "ok" in ev1 else "?")
                 k2 = ev2.get("err") or res2.get(cid, {}).get("comps", {}).get("err") or res2.get(cid, {}).get("factors", {}).get("err") or ("ok" if "ok" in ev2 else "?")
                 what = "the saved files evaluate to '%s', the original evaluation to '%s'" % (k2, k1)
+                from_results = True
             elif "ok" in ev1:
                 vals = [abs(Fraction(v)) for e in c["data"] for v in e["values"]]
                 fmax = max([abs(Fraction(x[k])) for x in f["wdata"] for k in ("ren", "nren", "co2")] + [Fraction(1)])
                 what = compare_results(ev1["ok"], ev2["ok"], len(vals), sum(vals), fmax)
+                from_results = bool(what)
                 stats["re_evaluated"] += 1
         if not what and recompletion:
             what = recompletion
-        if what and not what.startswith("rounding-recompletion"):
+        if what and from_results:
             # a non-zero value within a few units of the printed precision: rounding it changes it by more than 1 %, and where such a
             # value governs a ratio (cogenerated electricity, output energy shares) the saved file cannot evaluate alike
             tiny = [Fraction(v) for e in c["data"] for v in e["values"] if not isinstance(v, str) and 0 < abs(Fraction(v)) < Fraction(1, 2)]
@@ -324,7 +339,8 @@ def run(tier, seed):
                         R.violations.append((what.split(" (")[0][:70], {"what": what, "components": ctext, "args": [x.replace(d, "<dir>") for x in a1]}))
                 else:
                     R.cases_validated += 1
-        for i, (cid, (job, r)) in enumerate(list(keep.items())[: (8 if quick else 100)]):
+        # (the witnesses of the recorded findings are judged by the in-process stage above, which classifies them)
+        for i, (cid, (job, r)) in enumerate([kv for kv in keep.items() if not kv[0].startswith("w")][: (8 if quick else 100)]):
             if not isinstance(job["factors"].get("loc"), str):
                 continue
             cp = os.path.join(d, "c%d.csv" % i)
